@@ -159,6 +159,13 @@ func cmdC11(seed uint64, tier, outdir string) {
 			ins = append(ins, input{"hyphenated:" + in.name, []byte(strings.Join(ws, " "))})
 		}
 	}
+	// a leading line that yields no token (a notice, decoration, a bare list marker) and ends in a word hyphenated
+	// across the line break; the completed word is followed by blanks only
+	for _, in := range ins[:len(ins)/3] {
+		lead := r.pick([]string{"Copyright 2015 Acme Inter-\nnational \n\n", "Copyright (c) 2020 Foo Bar-\nbaz  \n", "&-\n( \n",
+			"Copyright 2001 X Y-\nz \n \n\n", "(c) Copyright 1999 some-\none\t\n"})
+		ins = append(ins, input{"leading-tokenless-hyphenated-line:" + in.name, append([]byte(lead), in.data...)})
+	}
 	nLicenseBearing := len(ins)
 	for i := 0; i < n/2; i++ {
 		ins = append(ins, input{fmt.Sprintf("synth/%d", i), synthText(r, 5+r.intn(60))})
